@@ -113,12 +113,31 @@ def normalise_renames(doc):
         cands = [e for e in extra if e.rsplit("::", 1)[0] == mod and (present[e]["inputs"], present[e]["output"]) == sig and e not in renames]
         if len(cands) == 1:
             renames[cands[0]] = m
+    # relocation: the function kept its name and signature but moved to another module / became an associated function
+    for m in missing:
+        if m in renames.values():
+            continue
+        sig = (anchors[m]["inputs"], anchors[m]["output"])
+        cands = [e for e in extra if e.rsplit("::", 1)[-1] == m.rsplit("::", 1)[-1] and (present[e]["inputs"], present[e]["output"]) == sig and e not in renames]
+        if len(cands) == 1:
+            renames[cands[0]] = m
+    # constants that kept name and type but moved (fn-local -> module level, another module)
+    with open(os.path.join(VERIF, "rules", "anchors.json")) as fh:
+        pinned_consts = json.load(fh).get("consts", [])
+    have_c = {c["path"]: c for c in doc["items"].get("consts", [])}
+    pinned_ty = {"io::slippi::ser::payload_sizes::FRAME_NUMBER": "usize", "io::slippi::ser::payload_sizes::PORT": "usize", "game::NUM_PORTS": "usize"}
+    for m in pinned_consts:
+        if m in have_c or "num_enum" in m:
+            continue
+        cands = [e for e in have_c if e not in pinned_consts and e.rsplit("::", 1)[-1] == m.rsplit("::", 1)[-1] and have_c[e].get("ty") == pinned_ty.get(m, have_c[e].get("ty")) and e not in renames]
+        if len(cands) == 1:
+            renames[cands[0]] = m
     if not renames:
         return doc, {}
     text = json.dumps(doc)
     for new, old in sorted(renames.items(), key=lambda kv: -len(kv[0])):
         # method names inside call nodes are recorded separately ("method": "..."): rename those too
-        text = re.sub(re.escape(json.dumps(new)[1:-1]) + r'(?=("|::\{closure))', json.dumps(old)[1:-1].replace("\\", "\\\\"), text)
+        text = re.sub(r'(?<![\w:])' + re.escape(json.dumps(new)[1:-1]) + r'(?=("|::\{closure|::<))', json.dumps(old)[1:-1].replace("\\", "\\\\"), text)
     doc2 = json.loads(text)
     short = {n.rsplit("::", 1)[1]: o.rsplit("::", 1)[1] for n, o in renames.items()}
 
